@@ -265,6 +265,23 @@ def view_rules(rep, mod, results, tagD):
                          % (op["body"], tagD, movers[0]), dict(operation=op["body"], primitives=movers))
         else:
             rep.ok(key + "#" + tagD, "R05.nomove", None)
+        # R05.moves: assignment from an element-moved view (element_moved() / a moved array's view) moves: the source range of the element primitive is a
+        # range over move_ptr<T, ...> (dereferences to T&&), not over move_ptr<T const, ...> (T const&&: every element would be copied)
+        if "element_moved()" in op["body"]:
+            key = "R05.moves@%s" % n
+            srcs = []
+            for r in traces:
+                for e in events_of(r, ("assign",)):
+                    full = e[5] if len(e) > 5 else ""
+                    srcs += re.findall(r"move_ptr<([^,<>]+(?:<[^<>]*>)?[^,<>]*),", full)
+            if not srcs:
+                rep.violated(key, "R05.moves", "%s (%s): the element assignment does not go over an element-moved range at all (the source's elements are copied)"
+                             % (op["body"], tagD), dict(operation=op["body"]))
+            elif any(re.search(r"\bconst\b", s_) for s_ in srcs):
+                rep.violated(key, "R05.moves", "%s (%s): the element-moved source range is traversed as a range of const elements (%s): every element is copied instead of moved from"
+                             % (op["body"], tagD, sorted(set(srcs))[0]), dict(operation=op["body"], element_types=sorted(set(srcs))))
+            else:
+                rep.ok(key + "#" + tagD, "R05.moves", dict(element_types=sorted(set(srcs))))
         # R05.count: a counted element primitive (copy_n / fill_n ...) covers exactly the destination: over flat pointers or elements() iterators the count
         # is num_elements() of the destination (or of the source, whose extents are asserted equal), over array iterators it is the leading size()
         key = "R05.count@%s" % n
@@ -529,10 +546,22 @@ def reextent_rules(rep, mod, results, tagD):
         if n in results:
             key = "%s@%s" % (fam, n)
             ok = all(pred(r["sim"]) for r in results[n] if r["outcome"] == "ret" and r.get("sim") is not None)
-            if ok:
+            # ... and the layout it writes is the layout of the empty extensions (what a default-constructed array has: unit innermost stride), not
+            # a zero-filled object (all strides 0: sizes and iterator differences divide by the stride)
+            zeroed = []
+            for r in results[n]:
+                if r["outcome"] != "ret":
+                    continue
+                wr = [e for e in r["events"] if e[0] == "writeblk" and e[1] == ("param", 0) and len(e) > 4]
+                if wr and "layout_t::layout_t(extensions_t const&)" not in repr(wr[-1][4]) and "'zero'" in repr(wr[-1][4]):
+                    zeroed.append(typestate.short_t(wr[-1][4], 80))
+            if ok and not zeroed:
                 rep.ok(key + "#" + tagD, fam, None)
-            else:
+            elif not ok:
                 rep.violated(key, fam, "%s (%s): violated: %s" % (mod.ops[n]["body"], tagD, what), dict(op=n))
+            else:
+                rep.violated(key, fam, "%s (%s): the layout left behind is a zero-filled object (%s), not the layout of the empty extensions: its strides are 0"
+                             % (mod.ops[n]["body"], tagD, zeroed[0]), dict(op=n, written=zeroed[:2]))
     if "reshape" in results:
         key = "R06.reshape@reshape"
         bad = [e[0] for r in results["reshape"] for e in r["events"] if e[0] in ("alloc", "dealloc", "construct", "destroy", "assign")]
